@@ -239,7 +239,7 @@ func RunTimerComp(w *World) {
 			}
 			w.action("advance")
 			w.ev("advance %v", d)
-			time.Sleep(d)
+			w.sleep(d)
 		case op == 7:
 			w.action("reader-on")
 			w.ev("reader on")
@@ -266,7 +266,7 @@ func RunTimerComp(w *World) {
 		synctest.Wait()
 		rest := r.cur.at + r.cur.timeout - w.now
 		if rest > 0 {
-			time.Sleep(rest)
+			w.sleep(rest)
 		}
 		synctest.Wait()
 		w.settleYields(nil)
